@@ -1,7 +1,16 @@
 """C16 — lock-free ring buffer (include/lockfree_ring_buffer.h).
 
 Script ops (harness/ring.c): p<v> trypush, o trypop, P<v> blocking push, O blocking pop,
-z size query.
+z size query.  Optional third harness argument: the value both counters start at (`base`).
+
+About 35% of the cases start the real ring with `high = low = base != 0` so that the counters
+cross 2^32, 2^63, 2^64 - 2^32 (where rt/vrt.c starts printing values as negative numbers) or
+2^64 during the run, or sit at a random 64-bit value.  The driver validates those logs against
+the 64-bit machine Model/RingW.lean started at `base` (a wrong counter value anywhere is a
+divergence); the API-level monitors and the size oracle do not depend on `base`.  Runs that take
+`high` across 2^64 fail on the real code (finding F-C16 in known_findings.json: trypop's
+`high > low` compares values) - the 64-bit machine describes exactly that behaviour, so these
+runs must still validate (`known_must_validate`).
 
 Blocking ops spin until they succeed, so a script must be deadlock-free under EVERY schedule.
 `deadlock_free` is a static sufficient condition (sound for the real code because every
@@ -23,7 +32,27 @@ generator draws a script and demotes blocking ops (P -> p, O -> o) at the worst 
 condition holds: scripts are deadlock-free by construction.  `_selftest()` cross-checks the
 condition against an exhaustive search of the API-level state space.
 """
+import os
+import sys
+
 from specs import sched_env, n_cases
+
+sys.path.insert(0, os.path.join(os.path.dirname(os.path.dirname(os.path.abspath(__file__))), "extract"))
+import ring_extract  # noqa: E402
+import vlib  # noqa: E402
+
+
+def pre(repo):
+    """translator step: fails closed (ExtractError = obligation broken) when the header's
+    emptiness tests are in no known shape"""
+    ring_extract.variant(repo)
+
+
+def tree_variant():
+    try:
+        return ring_extract.variant(vlib.REPO)
+    except ring_extract.ExtractError:
+        return "asis"
 
 # ------------------------------------------------------------------ deadlock freedom
 
@@ -165,6 +194,24 @@ def _blocking_script(rng, nt, cap, sizes, long_):
     return [ops for ops in threads if ops] or [["z"]]
 
 
+def pick_base(rng):
+    """0 for ~65% of the cases; otherwise a value that makes the counters cross a power of two
+    within the first few operations, or a random 64-bit value"""
+    r = rng.random()
+    if r < 0.65:
+        return 0
+    j = rng.randrange(1, 9)
+    if r < 0.75:
+        return (1 << 64) - j            # high crosses 2^64: finding F-C16 when >= j pushes succeed
+    if r < 0.84:
+        return (1 << 63) - j            # the sign bit of the counters themselves (not of the difference)
+    if r < 0.92:
+        return (1 << 32) - j            # size / power_of_2_mod are uint32_t
+    if r < 0.96:
+        return (1 << 64) - (1 << 32) - j   # rt/vrt.c prints values from here on as negative numbers
+    return rng.randrange(1 << 33, (1 << 64) - (1 << 33))
+
+
 def gen_ring(rng, tier):
     cases = []
     long_ = tier != "quick"
@@ -216,7 +263,11 @@ def gen_ring(rng, tier):
                 else:
                     out.append(op[0])
             threads.append(",".join(out))
-        cases.append({"args": [k, "|".join(threads)], "env": sched_env(rng)})
+        base = pick_base(rng)
+        args = [k, "|".join(threads), base, tree_variant()]
+        # a run that takes `high` across 2^64 hangs in every blocking pop (F-C16): small budget
+        env = sched_env(rng, budget=30000) if base >= (1 << 64) - 8 else sched_env(rng)
+        cases.append({"args": args, "env": env})
     return cases
 
 
@@ -263,10 +314,18 @@ def post_ring(log_path, case):
 
 SPEC = {
     "C16": {
-        "extra_props": ("QueueHist",),
+        "pre": pre,
+        "extra_props": ("QueueHist", "C16Wrap"),
         "parts": [{"name": "ring", "harness": "ring", "model": "Ring", "gen": gen_ring,
-                   "post": post_ring}],
-        "trusted_base": ["64-bit wrap-around of high/low not modelled (2^64 operations unreachable)",
+                   "post": post_ring, "known_must_validate": True}],
+        "trusted_base": ["64-bit wrap-around of high/low: Model/RingW.lean (the C arithmetic on 64-bit values, any "
+                         "starting value) refines Model/Ring.lean (Props/C16Wrap.lean) provided no single call is "
+                         "overlapped by 2^63 successful pushes or pops and - for the code as it is - high has not "
+                         "crossed 2^64 (beyond that point trypop's `high > low` is wrong; repaired by fix commit 1470beb); which "
+                         "comparison the header uses is extracted on every run (extract/ring_extract.py) and selects "
+                         "the machine the log is validated against",
+                         "the harness starts the counters at a non-zero base by an uninstrumented store after "
+                         "lockfree_ring_buffer_create (harness/ring.c apply_base)",
                          "loads of high/low are attributed to the wrappers (push, pop, size) or to "
                          "trypush/trypop by the function name in the log line",
                          "cpu_relax() of the wrappers is made visible by a harness-local macro "
